@@ -137,9 +137,10 @@ func checkReply(c reqCase, out []byte, panicked bool) (labels []string, err erro
 			if !bytes.Equal(out, exception(f, c.Code)) {
 				return labels, fmt.Errorf("handler returned a typed error with code %d: reply %x, want %x", c.Code, out, exception(f, c.Code))
 			}
-		case "generic-error":
+		case "generic-error", "client-exception", "client-exception-wrapped":
+			// (addressing to the request - transaction id, unit id, function code - was checked above for every reply)
 			if !isExc {
-				return labels, fmt.Errorf("handler returned a generic error: reply %x is not an exception", out)
+				return labels, fmt.Errorf("handler returned an error (%s): reply %x is not an exception", c.Handler, out)
 			}
 		case "panic":
 			if !panicked {
@@ -420,7 +421,7 @@ func genReq(t *rapid.T, level string) reqCase {
 	c.Handler = "device"
 	switch c.Class {
 	case "valid":
-		c.Handler = rapid.SampledFrom([]string{"device", "typed-error", "typed-error", "generic-error", "panic"}).Draw(t, "handler")
+		c.Handler = rapid.SampledFrom([]string{"device", "typed-error", "typed-error", "generic-error", "panic", "client-exception", "client-exception-wrapped"}).Draw(t, "handler")
 		c.Code = rapid.SampledFrom([]uint8{1, 2, 3, 4, 5, 6, 8, 10, 11}).Draw(t, "code")
 		c.Frame = spec.EncodeRequest(spec.TCP, gen.LegalReq(t, gen.FC(t), rapid.Bool().Draw(t, "fits")))
 	case "unsupported":
